@@ -93,6 +93,15 @@ func (g *gen) val() *ValJ {
 // in different prefix/path splits (same index path, different protobuf
 // content).
 func (g *gen) leafSplit() ([]ElemJ, []ElemJ) {
+	if g.r.Chance(1, 40) { // a path longer than path.ToStrings' capacity hint (20), with keys
+		var full []ElemJ
+		for i := 0; i < 19+g.r.Intn(8); i++ {
+			full = append(full, ElemJ{Name: fmt.Sprintf("l%d", i%3)})
+		}
+		full[3].Keys = map[string]string{"k": "v", "j": "w"}
+		k := g.r.Intn(len(full))
+		return full[:k], full[k:]
+	}
 	full := [][]ElemJ{
 		elems("a", "b"),
 		elems("a", "b"),
@@ -157,6 +166,13 @@ func (g *gen) notification() *NotiJ {
 		if g.r.Chance(1, 30) { // origin in the update path
 			n.Upd[0].Path.Origin = "o"
 		}
+		if g.r.Chance(1, 25) { // a target on the update path: legal, ignored
+			n.Upd[0].Path.Target = []string{"t", "u", "x"}[g.r.Intn(3)]
+		}
+		if g.r.Chance(1, 40) { // no target in the prefix, one on the path: still "no target"
+			n.Prefix.Target = ""
+			n.Upd[0].Path.Target = "t"
+		}
 		return n
 	case 1: // single delete
 		pe, p := g.deletePath()
@@ -176,8 +192,21 @@ func (g *gen) notification() *NotiJ {
 		}
 		return n
 	case 3: // multi
+		if g.r.Chance(1, 8) { // many units: 5..12 updates of distinct and repeated leaves, then deletes
+			n := &NotiJ{TS: g.ts(), Prefix: g.prefix(elems("a"))}
+			for i, k := 0, 5+g.r.Intn(8); i < k; i++ {
+				n.Upd = append(n.Upd, UpdJ{Path: pth([]string{"b", "c", "m1", "m2", "m3", "m4", "m5"}[g.r.Intn(7)]), Val: g.val()})
+			}
+			for i, k := 0, g.r.Intn(3); i < k; i++ {
+				n.Del = append(n.Del, *pth([]string{"b", "m1", "*"}[g.r.Intn(3)]))
+			}
+			return n
+		}
 		n := &NotiJ{TS: g.ts(), Prefix: g.prefix(nil)}
-		if g.r.Chance(1, 3) {
+		if g.r.Chance(1, 10) { // metadata first, data after it in one notification
+			n.Upd = append(n.Upd, UpdJ{Path: pth("meta", "foo"), Val: ival(1)})
+		}
+		if g.r.Chance(1, 3) && len(n.Upd) == 0 {
 			n.Prefix.Elems = elems("a")
 		}
 		nu, nd := g.r.Intn(4), g.r.Intn(3)
@@ -487,16 +516,28 @@ func starCase(r *vh.Rand) *Case {
 // discipline between timestamps more than 2^63 apart.
 func extremeTsCase(r *vh.Rand) *Case {
 	c := &Case{Family: "extreme-ts", Targets: []string{"t"}, Cfg: CfgJ{EventDriven: r.Chance(1, 2)}}
-	if r.Chance(1, 4) {
+	if r.Chance(1, 2) {
 		c.Cfg.Thr = 2
 	}
 	const maxI, minI = int64(9223372036854775807), int64(-9223372036854775808)
 	pool := []int64{maxI, maxI - 1, maxI - 1000, minI, minI + 1, minI + 1000, -(1 << 62), 1 << 62, -1, 0, 1, -1700000000000000000, 1700000000000000000}
+	if r.Chance(1, 6) {
+		// scripted: a leaf at MinInt64, the latest timestamp made positive through a sibling, then the leaf
+		// again just above MinInt64 with the clock just below it: ahead of the clock by more than the
+		// threshold, behind the latest by more than 2^63 (time.Sub saturates; an int64 subtraction wraps)
+		c.Cfg.Thr = 2
+		c.Ops = append(c.Ops,
+			Op{K: "upd", Now: 0, N: updN(minI, pfx("t", "a"), pth("b"), ival(1))},
+			Op{K: "upd", Now: 1700000000000000000, N: updN(1700000000000000000+int64(r.Intn(2)), pfx("t", "a"), pth("c"), ival(1))},
+			Op{K: "upd", Now: minI + 1, N: updN(minI+1000, pfx("t", "a"), pth("b"), ival(2))},
+			Op{K: "upd", Now: maxI - 5, N: updN(maxI, pfx("t", "a"), pth("c"), ival(2))},
+			Op{K: "upd", Now: 0, N: updN(minI+1000, pfx("t", "a"), pth("b"), ival(2))})
+	}
 	n := 3 + r.Intn(7)
 	for i := 0; i < n; i++ {
 		ts := pool[r.Intn(len(pool))]
 		leaf := []string{"b", "c"}[r.Pick(4, 1)]
-		now := []int64{0, 3, -5, 1700000000000000000}[r.Pick(4, 2, 1, 1)]
+		now := []int64{0, 3, -5, 1700000000000000000, minI + 1, minI + 999, maxI - 5}[r.Pick(4, 2, 1, 1, 2, 1, 1)]
 		switch r.Pick(10, 3, 1) {
 		case 0:
 			c.Ops = append(c.Ops, Op{K: "upd", Now: now, N: updN(ts, pfx("t", "a"), pth(leaf), ival(int64(1+r.Intn(2))))})
